@@ -10,7 +10,7 @@ TYPES = ["latency", "bandwidth", "slicer", "slow_close", "timeout", "limit_data"
 
 
 def port_base(shard=0):
-    return 21000 + (os.getpid() % 400) * 20 + shard * 4
+    return C.free_port_base("api", 40, 20000, 30000) + shard * 4
 
 
 class Gen:
